@@ -76,6 +76,29 @@ func bitsEq32(a, b []float32) int {
 	return -1
 }
 
+// zeroSignOnly reports whether a and b differ, and only in lanes where both are zero (+0 vs -0).
+func zeroSignOnly(a, b []float32) bool {
+	diff := false
+	for i := range a {
+		x, y := math.Float32bits(a[i]), math.Float32bits(b[i])
+		if x != y {
+			diff = true
+			if x&0x7fffffff != 0 || y&0x7fffffff != 0 {
+				return false
+			}
+		}
+	}
+	return diff
+}
+
+// biteqKey gives the finding key of a bit difference: the listed zero-sign finding or the kernel.
+func biteqKey(a, b []float32, kernel string) string {
+	if zeroSignOnly(a, b) {
+		return "biteq:zero-sign"
+	}
+	return "biteq:" + kernel
+}
+
 // check1D runs every oracle on one vector of length 64 or 256.
 func (e *C18) check1D(c *core.Ctx, x []float32, family string, atEnd bool) {
 	n := len(x)
@@ -112,7 +135,7 @@ func (e *C18) check1D(c *core.Ctx, x []float32, family string, atEnd bool) {
 	if i := bitsEq32(op, goOut); i >= 0 {
 		d := detail()
 		d["lane"], d["asm"], d["go"] = i, op[i], goOut[i]
-		c.Rec.Violation("biteq:"+kname, fmt.Sprintf("assembly and portable %d-point kernels differ in lane %d: asm %.9g (%#08x) go %.9g (%#08x) [%s]", n, i, op[i], math.Float32bits(op[i]), goOut[i], math.Float32bits(goOut[i]), family), d)
+		c.Rec.Violation(biteqKey(op, goOut, kname), fmt.Sprintf("assembly and portable %d-point kernels differ in lane %d: asm %.9g (%#08x) go %.9g (%#08x) [%s]", n, i, op[i], math.Float32bits(op[i]), goOut[i], math.Float32bits(goOut[i]), family), d)
 	}
 	// the kernel the package selected at init (what callers of ForwardDCT64/256 get)
 	dOut := append([]float32(nil), x...)
@@ -120,7 +143,7 @@ func (e *C18) check1D(c *core.Ctx, x []float32, family string, atEnd bool) {
 	if i := bitsEq32(dOut, goOut); i >= 0 {
 		d := detail()
 		d["lane"] = i
-		c.Rec.Violation("biteq:dispatch-"+kname, fmt.Sprintf("exported ForwardDCT%d differs from the portable kernel in lane %d", n, i), d)
+		c.Rec.Violation(biteqKey(dOut, goOut, "dispatch-"+kname), fmt.Sprintf("exported ForwardDCT%d differs from the portable kernel in lane %d", n, i), d)
 	}
 	// DCT-II definition
 	ref := make([]float64, n)
@@ -216,7 +239,7 @@ func (e *C18) check2D(c *core.Ctx, x []float32, family string) {
 	if i := bitsEq32(asmOut[:], goOut[:]); i >= 0 {
 		d := detail()
 		d["lane"], d["asm"], d["go"] = i, asmOut[i], goOut[i]
-		c.Rec.Violation("biteq:dct2dhash64", fmt.Sprintf("assembly and portable 2-D kernels differ in output %d: asm %.9g go %.9g [%s]", i, asmOut[i], goOut[i], family), d)
+		c.Rec.Violation(biteqKey(asmOut[:], goOut[:], "dct2dhash64"), fmt.Sprintf("assembly and portable 2-D kernels differ in output %d: asm %.9g go %.9g [%s]", i, asmOut[i], goOut[i], family), d)
 	}
 	if bitsEq32(op, goIn) < 0 {
 		c.Rec.Count("dct2d_inplace_rows_equal", 1)
@@ -360,6 +383,29 @@ func c18EdgeVectors(n int) (out [][]float32, names []string) {
 			return s * 1e-3
 		})
 	}
+	negz := math.Copysign(0, -1)
+	add("negzero", func(i int) float64 { return negz })
+	add("negzero-firsthalf", func(i int) float64 {
+		if i < n/2 {
+			return negz
+		}
+		return 0
+	})
+	add("negzero-alternating", func(i int) float64 {
+		if i%2 == 0 {
+			return negz
+		}
+		return 0
+	})
+	add("negzero-sparse", func(i int) float64 {
+		if i%7 == 3 {
+			return 1
+		}
+		if i%3 == 0 {
+			return negz
+		}
+		return 0
+	})
 	add("zero", func(i int) float64 { return 0 })
 	add("max255", func(i int) float64 { return 255 })
 	add("checker8", func(i int) float64 {
@@ -525,7 +571,7 @@ func (e *C18) dispatch(c *core.Ctx, r *core.Rng) {
 	b := transforms32.DCT2DHash64(append([]float32(nil), x...))
 	c.Rec.Eval(2)
 	if i := bitsEq32(a[:], b[:]); i >= 0 {
-		c.Rec.Violation("dispatch:dct2dhash64", fmt.Sprintf("DCT2DHash64 differs between FlagUseASM on and off in output %d (%.9g vs %.9g) [%s]", i, a[i], b[i], fam), map[string]any{"input_head": x[:64]})
+		c.Rec.Violation(biteqKey(a[:], b[:], "dispatch-dct2dhash64"), fmt.Sprintf("DCT2DHash64 differs between FlagUseASM on and off in output %d (%.9g vs %.9g) [%s]", i, a[i], b[i], fam), map[string]any{"input_head": x[:64]})
 	}
 	// DCT2DHash256 (portable 2-D loop over the selected 256-point kernel)
 	if r.Chance(1, 3) {
@@ -538,7 +584,7 @@ func (e *C18) dispatch(c *core.Ctx, r *core.Rng) {
 		b2 := transforms32.DCT2DHash256(&y2)
 		c.Rec.Eval(2)
 		if i := bitsEq32(a2[:], b2[:]); i >= 0 {
-			c.Rec.Violation("dispatch:dct2dhash256", fmt.Sprintf("DCT2DHash256 differs between the assembly and portable 256-point kernels in output %d [%s]", i, fam2), map[string]any{"input_head": y[:64]})
+			c.Rec.Violation(biteqKey(a2[:], b2[:], "dispatch-dct2dhash256"), fmt.Sprintf("DCT2DHash256 differs between the assembly and portable 256-point kernels in output %d [%s]", i, fam2), map[string]any{"input_head": y[:64]})
 		}
 		c.Rec.Sig("dispatch/dct2dhash256/" + fam2)
 	}
